@@ -4,7 +4,16 @@ accepts the library's connection and writes valid frames whole, coalesced,
 or cut at arbitrary byte positions (also inside the 4-byte size prefix, and
 frames larger than a socket buffer), then a canary frame.  Every message must
 be delivered exactly once, in order, with the peer as sender and the local
-port of the connection as receive port; the receiver must survive."""
+port of the connection as receive port; the receiver must survive.
+
+No verdict depends on elapsed time: if the canary frame has not been
+dispatched after a few seconds the harness only *ends the stream*, waits for
+the reader thread to run into EOF and terminate and for SystemClock to flush,
+and then judges the final state (every byte was offered, the reader is done).
+A reader that is still running 30 s after EOF makes the shard inconclusive.
+The 2 ms pauses between fragments merely make it likely that the reader sees
+a fragment alone; a pause it does not observe makes the case less effective,
+never wrong."""
 
 import socket
 import struct
@@ -111,6 +120,7 @@ def run(spec, acc):
             acc.count('tcp_send_errors')
             peer.ok = False
             continue
+        my_canary = rig.canary_seq
         ok = False
         deadline = time.monotonic() + 6.0
         while time.monotonic() < deadline:
@@ -118,8 +128,31 @@ def run(spec, acc):
                 ok = True
                 break
             if not peer.alive():           # receive thread gone: nothing will come
-                ok = rig.canary_ev.wait(0.3)
                 break
+        if not ok:
+            # No verdict on elapsed time.  Everything has been written: end the
+            # stream, let the reader run into EOF and finish, flush SystemClock
+            # with a canary through the UDP interface, and judge the final
+            # state (a correct reader has by then delivered every frame).
+            acc.count('tcp_stream_closed_to_decide')
+            try:
+                peer.conn.shutdown(socket.SHUT_WR)
+            except OSError:
+                pass
+            t = getattr(peer.itf, '_tcp_thread', None)
+            if t is not None:
+                t.join(30.0)
+            if t is not None and t.is_alive():
+                acc.mark_inconclusive('tcp: reader still running 30 s after end of stream '
+                                      '(starved host?)')
+                peer.close()
+                return
+            if not rig._canary(False, 30.0):
+                acc.mark_inconclusive('tcp: SystemClock did not dispatch a flush canary')
+                peer.close()
+                return
+            ok = my_canary in rig.canaries_seen
+            peer.ok = False                # next case: fresh connection
         t1 = rig.main.elapsed_time()
         acc.count('tcp_frames', len(msgs))
         acc.count('tcp_mode/' + mode)
@@ -149,8 +182,6 @@ def run(spec, acc):
                    and bad in ('message-lost', 'receiver-dead', 'wrong-message')
                    else f'C18/tcp/{bad}/{cls}')
             acc.violation(key, dict(w, what=bad))
-            if not ok:
-                peer.ok = False      # resynchronise on a fresh connection
         else:
             acc.count('tcp_messages_delivered_exactly', len(msgs))
         if acc.want_sample() and cls == 'fragmented' and len(stream) < 200:
